@@ -3,7 +3,7 @@
 //@source gm-sm2/src/p256_ecc.rs
 //@tables sm2
 //@lean sm2_point_dbl sm2_point_add sm2_is_valid sm2_is_valid_affine sm2_to_affine
-//@assume Point::point_add / point_dbl are verified by Verus against their group-law contracts; the 17 `ring_*` lemmas they rest on (integer-polynomial identities, external_body in Verus) are discharged on every run by Lean `ring` (vf/ringcheck.py; any other shape is refused); what stays assumed about the group is ax_group_closed / ax_inv_p and the associativity/order axioms of sm2_math
+//@assume Point::point_add / point_dbl are verified by Verus against their complete group-law contracts (point_add: `abs(r) == g_add(abs(self), abs(p))` for every pair of valid points - the same point in any two Jacobian representations, opposite points, infinity on either side - with no excluded case; scalar_mul / g_mul for every 256-bit scalar, including 0, n and values above n); the 18 `ring_*` lemmas they rest on (integer-polynomial identities, external_body in Verus) are discharged on every run by Lean `ring` (vf/ringcheck.py; any other shape is refused); what stays assumed about the group is ax_group_closed / ax_inv_p and the associativity/order axioms of sm2_math
 //@assume rewrite: `for (i, x) in a.iter().enumerate()` over an array is the indexed loop `for i in 0..a.len() { let x = &a[i]; ...` (declared textual rewrite)
 //@assume ax_sm2_table: every entry of SM2P256_PRECOMPUTED is the Montgomery form of the affine point [j*256^i]G - discharged on every run by exhaustive ground evaluation (tools/check_tables.py), not by Verus
 //@rewrite-text for (index, scalar_word) in g.iter().enumerate() { ==> for index in 0..g.len() { let scalar_word = &g[index];
@@ -1032,20 +1032,6 @@ pub proof fn ecc_order(k: int, a: Pt) requires on_curve(a), 0 < k < N(), g_smul(
     assert(t * N() >= 0) by(nonlinear_arith) requires t >= 0, N() > 0;
     lemma_smul_add(t * N(), 1, a);
     ecc_smul_one(a);
-}
-// distinct small multiples of a point are distinct points (or both infinity): the excluded case D13 of point_add cannot occur
-pub proof fn ecc_no_d13(j: int, k: int, a: Pt) requires on_curve(a), 0 <= j, 0 <= k, j != k, j + k < N()
-    ensures !(g_smul(j, a) == g_smul(k, a) && g_smul(j, a) != Pt::Inf)
-{
-    if g_smul(j, a) == g_smul(k, a) && g_smul(j, a) != Pt::Inf {
-        let (lo, hi) = if j < k { (j, k) } else { (k, j) };
-        let m = hi - lo;
-        lemma_smul_add(m, lo, a);
-        lemma_smul_closed(m, a); lemma_smul_closed(lo, a);
-        ecc_cancel(g_smul(m, a), g_smul(lo, a));
-        ecc_order(m, a);
-        ecc_smul_inf(j);
-    }
 }
 // ---------------------------------------------------------------- scalar digits (4-bit windows, most significant first)
 pub open spec fn ecc_pow16(j: int) -> int decreases j { if j <= 0 { 1 } else { 16 * ecc_pow16(j - 1) } }
